@@ -121,7 +121,16 @@ def r_ortho(ctx):
     conds = flow.conditions_guarding(st)
     early = [s for s in flow.stmts_of(fn) if isinstance(s, (ast.Return, ast.Break, ast.Continue))]
     from ..absint import _pure
-    extra = [s for s in fn.body if not (loop_nodes and s is loop_nodes[0]) and not isinstance(s, ast.Pass)
+    def resets_output_before(s):
+        """`self.list_of_constraints = list()` / `.clear()` ahead of the loop nest: every relation is still generated (whether anything else that
+        was stored there may be dropped is the business of C05)"""
+        if not (loop_nodes and getattr(s, "lineno", 0) < loop_nodes[0].lineno):
+            return False
+        if isinstance(s, ast.Assign) and len(s.targets) == 1 and dotted(s.targets[0]) == "self.list_of_constraints" and _harmless(s.value) \
+                and not any(isinstance(n0, ast.Attribute) and n0.attr in ("blocks_dict", "d") for n0 in ast.walk(s.value)):
+            return True
+        return isinstance(s, ast.Expr) and isinstance(s.value, ast.Call) and call_name(s.value) == "clear" and dotted(s.value.func.value) == "self.list_of_constraints"
+    extra = [s for s in fn.body if not (loop_nodes and s is loop_nodes[0]) and not isinstance(s, ast.Pass) and not resets_output_before(s)
              and not (isinstance(s, ast.Assign) and len(s.targets) == 1 and isinstance(s.targets[0], ast.Name) and _harmless(s.value))]
     ok = not conds and not early and not extra
     ctx.ob("R-ORTHO", "BlockPartition.add_partition_constraints::unconditional", ok,
